@@ -21,7 +21,8 @@ RULE = ('index tables: every tuple pattern of length <= 4 (<= 5 thorough) exhaus
         'tripartite matricisations and cut outputs for dimA != dimB != dimC; decision ops on both sides of each threshold. An op is non-trivial when its output is not all zeros/empty; '
         'distinct = distinct op lines.')
 TRUSTED = ['Lean 4.33 kernel', 'axioms: propext, Classical.choice, Quot.sound', 'Lean compiler for the driver executable',
-           'harness/c20.py: ast translator for the three certificate comparisons (validated dynamically on both sides of each threshold), '
+           'harness/c20.py: ast translator for the three certificate comparisons and the routine behind the decision quantity (validated dynamically '
+           'on both sides of each threshold, injected only through the routine the source uses), regression corpus corpus/C20, '
            'canonicalisation, in-process wrappers that capture the arrays handed to svd/eigh helpers',
            'modelled, not verified: numqi/matrix_space/{_misc,_hierarchy,_numerical_range}.py',
            'contracts (hypotheses of the theorems, probed only): np.linalg.svd / eigh / eigvalsh, scipy.linalg.lu, '
@@ -91,19 +92,36 @@ def _extract_rank_one(src):
     raise Untranslatable('no comparison on upper_bound')
 
 
+def _measure_kind(node):
+    """which quantity the Gram-matrix certificate measures: `np.linalg.eigvalsh(X)[0]` -> smallestEigenvalue;
+    `np.abs(np.diag(scipy.linalg.lu(X)[2])).min()` -> minAbsLUPivot (not rank revealing: the repaired defect 561406a); anything else -> other"""
+    if isinstance(node, ast.Subscript) and isinstance(node.slice, ast.Constant) and node.slice.value == 0 \
+            and isinstance(node.value, ast.Call) and isinstance(node.value.func, ast.Attribute) and node.value.func.attr == 'eigvalsh' \
+            and len(node.value.args) == 1 and isinstance(node.value.args[0], ast.Name):
+        return 'smallestEigenvalue'
+    if any(isinstance(x, ast.Attribute) and x.attr == 'lu' for x in ast.walk(node)):
+        return 'minAbsLUPivot'
+    return 'other'
+
+
 def _extract_lu(src, fname):
     fn = _func(ast.parse(src), fname)
     for n in ast.walk(fn):
         if isinstance(n, ast.Assign) and len(n.targets) == 1 and isinstance(n.targets[0], ast.Name) and n.targets[0].id == 'ret' \
                 and isinstance(n.value, ast.Compare):
-            return _lean_cmp(n.value, {'<call>': 'm'}), _default(fn, 'zero_eps')
-    raise Untranslatable('no `ret = … > zero_eps` in ' + fname)
+            return _lean_cmp(n.value, {'<call>': 'm'}), _default(fn, 'zero_eps'), _measure_kind(n.value.left)
+    raise Untranslatable('no `ret = ... > zero_eps` in ' + fname)
 
 
 _HDR = '''/- GENERATED by harness/c20.py (translate) from
    {repo}/python/numqi/matrix_space/_numerical_range.py and _hierarchy.py — do not edit.
    The comparison operators and default tolerances of the three rank certificates, as they stand in the source. -/
 namespace Numqi.Generated.Thresholds20
+
+/-- the routine that produces the quantity a Gram-matrix certificate compares with `zero_eps` -/
+inductive DecisionKind where
+  | smallestEigenvalue | minAbsLUPivot | other
+deriving DecidableEq, Repr
 
 '''
 
@@ -128,15 +146,19 @@ def translate(ctx=None):
         items.append(('rankOneCert', 'detect_real_matrix_subspace_rank_one', 'upper_bound zero_eps', t, e))
     except Untranslatable as ex:
         items.append(('rankOneCert', 'detect_real_matrix_subspace_rank_one (UNTRANSLATABLE: %s)' % str(ex)[:80].replace('-/', ''), 'upper_bound zero_eps', 'True', Fraction(0)))
+    measures = {}
     for name, fname in (('hierarchyCert', 'has_rank_hierarchical_method'), ('abcCert', 'is_ABC_completely_entangled_subspace')):
         try:
-            t, e = _extract_lu(open(os.path.join(base, '_hierarchy.py')).read(), fname)
-            items.append((name, fname, 'm zero_eps', t, e))
+            t, e, mk = _extract_lu(open(os.path.join(base, '_hierarchy.py')).read(), fname)
+            items.append((name, fname, 'm zero_eps', t, e)); measures[name] = mk
         except Untranslatable as ex:
             items.append((name, fname + ' (UNTRANSLATABLE: %s)' % str(ex)[:80].replace('-/', ''), 'm zero_eps', 'True', Fraction(0)))
+            measures[name] = 'other'
     for name, pyname, args, expr, eps in items:
         out += _DEF.format(pyname=pyname, pyexpr=expr, name=name, args=args, expr=expr, eps=str(eps),
                            num=abs(eps.numerator), den=eps.denominator, neg='true' if eps < 0 else 'false')
+    for name, mk in measures.items():
+        out += f'/-- the routine behind the measured quantity `m` of `{name}`, as it stands in the source -/\ndef {name}Kind : DecisionKind := .{mk}\n\n'
     out += 'end Numqi.Generated.Thresholds20\n'
     old = open(GEN).read() if os.path.exists(GEN) else None
     if old != out:
@@ -144,7 +166,8 @@ def translate(ctx=None):
             with open(GEN, 'w') as fh:
                 fh.write(out)
     if ctx is not None:
-        ctx.extra['translated'] = {name: dict(expr=expr, zero_eps=str(eps)) for name, _, _, expr, eps in items}
+        ctx.extra['translated'] = {name: dict(expr=expr, zero_eps=str(eps), decision_kind=measures.get(name)) for name, _, _, expr, eps in items}
+    translate.measures = measures
     return items
 
 
@@ -653,8 +676,8 @@ def tie_decisions(ctx):
             ops.append(f'C20 cert rankone {fbits(ub)} {fbits(eps)}')
             impl.append(res if isinstance(res, str) else str(int(not res[0])))
     # --- Gram-matrix certificates: measured quantity vs zero_eps (no arithmetic on either side: exact, boundary included).
-    # The measured quantity is injected whichever routine the implementation asks (smallest eigenvalue of the Gram matrix
-    # since the repair 561406a, min |diag U| of scipy.linalg.lu before / in is_vector_linear_independent).
+    # The quantity is injected ONLY through the routine the translator found in the source (`DecisionKind`): smallest eigenvalue ->
+    # np.linalg.eigvalsh, LU pivots -> scipy.linalg.lu; an unrecognised routine cannot be injected and is reported.
     def fake_lu(m):
         def f(a, *args, **kw):
             n = a.shape[0]
@@ -684,7 +707,14 @@ def tie_decisions(ctx):
             ops.append(f'C20 certdefault {which}'); impl.append(f'{Fraction(repr(d)).numerator}/{Fraction(repr(d)).denominator}')
         for eps in [d, 1e-3, 0.0, 1e-12]:
             for m in [eps, eps * (1 + 1e-9), eps * (1 - 1e-9), np.nextafter(eps, 1), 0.0, 1e-16, 1.0, 2.5, float(rng.uniform(0, 2 * eps + 1e-8))]:
-                with patched((scipy.linalg, 'lu', fake_lu(m)), (np.linalg, 'eigvalsh', fake_eigvalsh(m, skip))):
+                kind = 'minAbsLUPivot' if which == 'lu' else getattr(translate, 'measures', {}).get(which + 'Cert', 'other')
+                if kind == 'smallestEigenvalue':
+                    pt = [(np.linalg, 'eigvalsh', fake_eigvalsh(m, skip))]
+                elif kind == 'minAbsLUPivot':
+                    pt = [(scipy.linalg, 'lu', fake_lu(m))]
+                else:
+                    ops.append(f'C20 cert {which} {fbits(m)} {fbits(eps)}'); impl.append('decision-routine-not-recognised'); continue
+                with patched(*pt):
                     res = guarded(lambda: call({} if eps == d else dict(zero_eps=eps)))
                 ops.append(f'C20 cert {which} {fbits(m)} {fbits(eps)}')
                 impl.append(res if isinstance(res, str) else str(int(bool(res))))
@@ -1184,7 +1214,42 @@ def probe_numrange(ctx):
                     ctx.probe_ok(('nrdir', n))
 
 
+
+
+CORPUS = os.path.join(common.VERIF, 'corpus', 'C20')
+
+
+def replay_corpus(ctx):
+    """regression corpus (committed): orthonormal bases with a planted low-rank element whose Gram matrix is numerically singular while
+    min|diag U| of its partial-pivot LU exceeds 1e-7 (the repaired defect 561406a).  The unpatched function must answer False on each."""
+    from numqi.matrix_space import has_rank_hierarchical_method
+    if not os.path.isdir(CORPUS):
+        return
+    for fn in sorted(os.listdir(CORPUS)):
+        if not fn.endswith('.json'):
+            continue
+        d = json.load(open(os.path.join(CORPUS, fn)))
+        shape = (d['N'], d['dA'], d['dB'])
+        B = np.array([float.fromhex(x) for x in d['basis_re_hex']]).reshape(shape)
+        if d.get('basis_im_hex'):
+            B = B + 1j * np.array([float.fromhex(x) for x in d['basis_im_hex']]).reshape(shape)
+        replay = dict(op='has_rank_hierarchical_method', corpus_file=os.path.join('corpus', 'C20', fn), rank=d['rank'], hierarchy_k=d['hierarchy_k'],
+                      planted_rank=d['planted_rank'], basis_re=B.real.tolist(), basis_im=(B.imag.tolist() if d.get('basis_im_hex') else None))
+        try:
+            res = has_rank_hierarchical_method(B, d['rank'], hierarchy_k=d['hierarchy_k'])
+        except Exception as e:
+            ctx.fail('hierarchy-exception', f'has_rank_hierarchical_method raised {type(e).__name__}: {e} on corpus instance {fn}', replay); continue
+        ctx.count('corpus-replayed')
+        if bool(res) != bool(d['expected']):
+            ctx.fail('hierarchy-lu-not-rank-revealing', f'corpus instance {fn}: has_rank_hierarchical_method(rank={d["rank"]}, k={d["hierarchy_k"]}) certifies a '
+                     f'{d["dA"]}x{d["dB"]} subspace (dim {d["N"]}) containing an element of rank {d["planted_rank"]} (Gram matrix singular, '
+                     f'sigma_min/sigma_max={d["gram_sigma_min_over_max"]:.1e}; min|diag U| of its LU factor {d["lu_min_abs_pivot"]:.2e})', replay)
+        else:
+            ctx.probe_ok(('corpus', fn))
+
+
 def probe(ctx):
+    replay_corpus(ctx)
     probe_decomposition(ctx)
     probe_decomposition_graded(ctx)
     probe_planted(ctx)
